@@ -604,3 +604,17 @@ impl VersionHistoryLock {
         ensures *final(w) == *old(w),
     { unimplemented!() }
 }
+
+// ---------------------------------------------------------------- bulk ingestion (lsm-tree AnyIngestion)
+// finish(): flushes the active memtable and registers the ingested tables at a fresh seqno WITHOUT any journal
+// record. C01/C04/C14: it must run inside the journal critical section (or when the journal mutex is poisoned, in
+// which case no writer can exist), otherwise a concurrent write with a lower seqno lands above the ingested table.
+pub struct AnyIngestion { pub tree: Ghost<u64> }
+impl AnyIngestion {
+    #[verifier::external_body]
+    pub fn finish(self, Tracked(w): Tracked<&mut World>) -> (r: Result<(), lsm_tree::Error>)
+        requires old(w).trees.dom().contains(self.tree@),
+                 (old(w).journal.locked && old(w).inflight is None && old(w).pending.len() == 0) || old(w).journal.mutex_poisoned, // [C01:ingest-under-journal-lock] [C04:ingest-under-journal-lock] [C06:P-VIS-version-change]
+        ensures version_change_post(*old(w), *final(w), self.tree@),
+    { unimplemented!() }
+}
